@@ -206,7 +206,8 @@ pub fn run_history(run: &Run<'_>, mut st: Option<&mut Stats>) -> Result<(), (Str
     let mut aborted = false;
     let mut seen_calls = 0usize;
     let mut history_retries = 0u32;
-    'chunks: for chunk in chunks {
+    let mut queue: std::collections::VecDeque<&[u8]> = chunks.into_iter().collect();
+    'chunks: while let Some(chunk) = queue.pop_front() {
         let mut want = vec![];
         let mut trial = refs.clone();
         trial.feed(chunk, &mut want);
@@ -220,7 +221,8 @@ pub fn run_history(run: &Run<'_>, mut st: Option<&mut Stats>) -> Result<(), (Str
         let r: Result<usize, io::Error> = match run.api {
             Api::Write => stream.write(chunk),
             Api::WriteVectored => {
-                let bufs = [io::IoSlice::new(&[]), io::IoSlice::new(chunk)];
+                let (m1, m2) = (chunk.len() / 3, 2 * chunk.len() / 3);
+                let bufs = [io::IoSlice::new(&[]), io::IoSlice::new(&chunk[..m1]), io::IoSlice::new(&chunk[m1..m2]), io::IoSlice::new(&[]), io::IoSlice::new(&chunk[m2..])];
                 stream.write_vectored(&bufs)
             }
             Api::WriteAll => stream.write_all(chunk).map(|_| chunk.len()),
@@ -292,10 +294,10 @@ pub fn run_history(run: &Run<'_>, mut st: Option<&mut Stats>) -> Result<(), (Str
                         ));
                     }
                 } else if !cells_eq(&got, &want_n, run.styles) {
-                    if matches!(run.api, Api::Write | Api::WriteVectored) && short && n == chunk.len() && want_n.len() > got.len() && cells_eq(&got, &want_n[..got.len()], run.styles) {
+                    if matches!(run.api, Api::Write | Api::WriteVectored) && short && want_n.len() > got.len() && cells_eq(&got, &want_n[..got.len()], run.styles) {
                         return Err((
                             SIG_F14.into(),
-                            format!("write returned Ok({n}) = whole buffer, but a console call accepted a short count and only {} of {} text bytes were handed over", got.len(), want_n.len()),
+                            format!("write returned Ok({n}) = everything it processed, but a console call accepted a short count and only {} of {} text bytes were handed over", got.len(), want_n.len()),
                         ));
                     }
                     return Err((
@@ -304,12 +306,16 @@ pub fn run_history(run: &Run<'_>, mut st: Option<&mut Stats>) -> Result<(), (Str
                     ));
                 }
                 if n < chunk.len() {
-                    // a short count from the stream itself: the caller would resubmit; not used by the current
-                    // implementation, handled for completeness
+                    // a short count from the stream itself (write_vectored consumes its first non-empty slice): the
+                    // caller resubmits the rest
                     refs = trial_n;
                     expected.extend_from_slice(&want_n);
-                    aborted = true;
-                    break 'chunks;
+                    if n == 0 {
+                        aborted = true;
+                        break 'chunks;
+                    }
+                    queue.push_front(&chunk[n..]);
+                    continue 'chunks;
                 }
                 refs = trial;
                 expected.extend_from_slice(&want);
@@ -345,6 +351,31 @@ pub fn run_history(run: &Run<'_>, mut st: Option<&mut Stats>) -> Result<(), (Str
                 expected.extend_from_slice(&carried);
                 expected.extend_from_slice(&got);
                 aborted = true;
+                // after a failed all-or-nothing call the stream is still usable: a following formatted write (with a
+                // run-time argument, starting with a reset so that the style is known) hands over its own text only
+                // (only when the bytes sent so far end on a character boundary: otherwise the reset would follow a cut-off
+                // character, which is outside the domain of valid UTF-8 texts)
+                let end = chunk.as_ptr() as usize + chunk.len() - run.input.as_ptr() as usize;
+                let clean = end <= run.input.len() && std::str::from_utf8(&run.input[..end]).is_ok();
+                if clean && matches!(run.api, Api::WriteAll | Api::WriteFmt | Api::WriteFmtBig | Api::WriteFmtChars | Api::WriteFmtLiteral) && retries == 0 {
+                    console.0.borrow_mut().script.clear();
+                    let follow = 2 + (chunk.len() % 7);
+                    let r2 = write!(stream, "{}next:{}", "\x1b[0m", follow);
+                    let calls2: Vec<ConsoleCall> = console.0.borrow().calls[seen_calls..].to_vec();
+                    seen_calls += calls2.len();
+                    let got2 = accepted_cells(&calls2);
+                    let want2: Vec<Cell> = format!("next:{follow}").bytes().map(|b| (b, None, None)).collect();
+                    if r2.is_err() || got2 != want2 {
+                        return Err((
+                            format!("c18:{tag}:after-error"),
+                            format!("after the failed call a formatted write of \"ESC[0mnext:{follow}\" returned {:?} and handed over {}, expected {}", r2.map_err(|e| e.kind()), show_cells(&got2), show_cells(&want2)),
+                        ));
+                    }
+                    expected.extend_from_slice(&want2);
+                    if let Some(st) = st.as_deref_mut() {
+                        st.count("formatted_writes_after_a_failed_call");
+                    }
+                }
                 break 'chunks;
             }
         }
